@@ -65,49 +65,62 @@ def parseV1 : Nat → Bytes → Option (List Bytes)
       if rest.length = 0 then none                        -- Read at end of data: io.EOF → error
       else (parseV1 fuel (rest.drop n)).map (rest.take n :: ·)
 
-/-! ### Record level -/
+/-! ### Record level
 
-structure Seg where
-  key  : String      -- gob-decoded `Model.Key`; "" = `extractKeyFromTreasure` fails
-  data : String      -- the segment bytes (opaque; hex in the driver)
+  Keys, payloads and the swamp name are values of one type `α` (strings in the driver, byte strings when
+  the V2 codec is instantiated with the storage model of C01); `default : α` is the empty key. -/
+
+structure Seg (α : Type) where
+  key  : α      -- gob-decoded `Model.Key`; `default` (empty) = `extractKeyFromTreasure` fails
+  data : α      -- the segment bytes (opaque; a hash in the driver)
   deriving DecidableEq, Repr, Inhabited
 
-abbrev V1File := String × List Seg      -- file name, segments in file order
-abbrev Folder := List V1File            -- in `os.ReadDir` order (sorted by name)
+abbrev V1File (α : Type) := String × List (Seg α)      -- file name, segments in file order
+abbrev Folder (α : Type) := List (V1File α)            -- in `os.ReadDir` order (sorted by name)
 
-def allSegs (fo : Folder) : List Seg := fo.flatMap (·.2)
+section
+variable {α : Type} [DecidableEq α] [Inhabited α]
+
+def allSegs (fo : Folder α) : List (Seg α) := fo.flatMap (·.2)
 
 /-- value of `k` when the segments are folded in order with `m[key] = value` -/
-def lastOf (segs : List Seg) (k : String) : Option String :=
+def lastOf (segs : List (Seg α)) (k : α) : Option α :=
   (segs.reverse.find? (fun s => s.key == k)).map (·.data)
 
-def firstOf (segs : List Seg) (k : String) : Option String :=
+def firstOf (segs : List (Seg α)) (k : α) : Option α :=
   (segs.find? (fun s => s.key == k)).map (·.data)
 
 /-- legacy `Load` visiting the files in the order `perm` -/
-def loadV1In (perm : Folder) : String → Option String := lastOf (allSegs perm)
+def loadV1In (perm : Folder α) : α → Option α := lastOf (allSegs perm)
 
 /-- what the legacy engine can load: any file order (Go map iteration) -/
-def LoadsV1 (fo : Folder) (m : String → Option String) : Prop :=
-  ∃ perm : Folder, perm.Perm fo ∧ m = loadV1In perm
+def LoadsV1 (fo : Folder α) (m : α → Option α) : Prop :=
+  ∃ perm : Folder α, perm.Perm fo ∧ m = loadV1In perm
 
-def UniqueKeys (fo : Folder) : Prop := ((allSegs fo).map (·.key)).Nodup
+def UniqueKeys (fo : Folder α) : Prop := ((allSegs fo).map Seg.key).Nodup
 
-abbrev Entry := String × String
+end
 
-def lookup (es : List Entry) (k : String) : Option String := (es.find? (fun e => e.1 == k)).map (·.2)
+abbrev Entry (α : Type) := α × α
+
+section
+variable {α : Type} [DecidableEq α] [Inhabited α]
+
+def lookup (es : List (Entry α)) (k : α) : Option α := (es.find? (fun e => e.1 == k)).map (·.2)
 
 /-- `entryMap[entry.Key] = entry` -/
-def insertKV (es : List Entry) (k v : String) : List Entry :=
+def insertKV (es : List (Entry α)) (k v : α) : List (Entry α) :=
   match es with
   | [] => [(k, v)]
   | (k', v') :: rest => if k' == k then (k, v) :: rest else (k', v') :: insertKV rest k v
 
 /-- keeps the first value seen for a key (the seeded defect "dedupe keeping the first") -/
-def insertIfAbsent (es : List Entry) (k v : String) : List Entry :=
+def insertIfAbsent (es : List (Entry α)) (k v : α) : List (Entry α) :=
   match es with
   | [] => [(k, v)]
   | (k', v') :: rest => if k' == k then (k', v') :: rest else (k', v') :: insertIfAbsent rest k v
+
+end
 
 /-- code facts of the migrator -/
 structure MCfg where
@@ -118,34 +131,27 @@ structure MCfg where
   removeOnWriteFail  : Bool   -- `os.Remove(filePath)` when writing an entry or closing fails
   removeOnOpenFail   : Bool   -- nothing is left behind when creating the file (header, name) fails
   emptyKeyIsError    : Bool   -- `extractKeyFromTreasure` rejects an empty key
+  metaErrorAborts    : Bool   -- an unreadable meta file fails the migration (instead of migrating without the name)
   verifyValues       : Bool   -- verification compares values too (currently: key presence only)
+  refusesExisting    : Bool   -- a `.hyd` file that is already there fails the swamp (phase "write") untouched,
+                              -- instead of being opened for appending by `NewFileWriterWithName`
   deriving DecidableEq, Repr, Inhabited
 
-def good : MCfg := ⟨true, true, true, true, true, true, true, false⟩
-
-def dedupe (cfg : MCfg) (segs : List Seg) : List Entry :=
-  segs.foldl (fun es s => if cfg.dedupeLast then insertKV es s.key s.data else insertIfAbsent es s.key s.data) []
+def good : MCfg := ⟨true, true, true, true, true, true, true, true, false, true⟩
 
 /-- the V2 codec as a parameter: how a file is written from inserts and read back -/
-structure V2 (File : Type) where
-  write   : String → List Entry → File
-  loadMap : File → String → Option String
-  nameOf  : File → String
-  hasKey  : File → String → Bool      -- `LoadIndex` (used by verification)
-
-/-- the assumption recorded in the trusted base: with distinct keys a written file loads back
-    to exactly the inserted records, under the written name -/
-structure V2.Lawful {File : Type} (v : V2 File) : Prop where
-  load : ∀ nm es, (es.map (·.1)).Nodup → ∀ k, v.loadMap (v.write nm es) k = lookup es k
-  name : ∀ nm es, v.nameOf (v.write nm es) = nm
-  keys : ∀ nm es k, v.hasKey (v.write nm es) k = (lookup es k).isSome
-
-/-- the trivial codec used by the driver -/
-def idV2 : V2 (String × List Entry) where
-  write nm es := (nm, es)
-  loadMap f k := lookup f.2 k
-  nameOf f := f.1
-  hasKey f k := (lookup f.2 k).isSome
+structure V2 (α : Type) (File : Type) where
+  write   : α → List (Entry α) → File
+  /-- `NewFileWriterWithName` on a path that exists: the file is opened for appending (its header, and with it
+      its name, stay); `none` = it cannot be opened (too short, bad header) -/
+  append  : File → List (Entry α) → Option File
+  /-- `WriteEntry`'s validation (an empty key, a key longer than 65535 bytes) -/
+  accepts : Entry α → Bool
+  /-- `createNewFile`'s name-length guard (checked before anything is created) -/
+  acceptsName : α → Bool
+  loadMap : File → α → Option α
+  nameOf  : File → α
+  hasKey  : File → α → Bool      -- `LoadIndex` (used by verification)
 
 structure Opts where
   verify    : Bool
@@ -160,13 +166,9 @@ inductive Fault where
   | write (stage : Nat)  -- writing the .hyd file fails: stage 0 = while creating it (header, swamp name), else later
   | verify               -- re-reading the .hyd file fails or a key is missing
   | unlink (n : Nat)     -- deleting the (n+1)-th V1 file fails
+  | rmdir                -- every file is deleted, removing the folder itself fails
+  | metaRead             -- the meta file cannot be read: the swamp name is unknown
   deriving DecidableEq, Repr, Inhabited
-
-structure Disk (File : Type) where
-  v1       : Folder          -- V1 files still present
-  v1Folder : Bool            -- the swamp folder itself still exists
-  hyd      : Option File
-  deriving Repr
 
 def Fault.isWrite : Fault → Bool
   | .write _ => true
@@ -178,64 +180,118 @@ inductive Res where
   | failed (phase : String)
   deriving DecidableEq, Repr, Inhabited
 
+structure Disk (α : Type) (File : Type) where
+  v1       : Folder α        -- V1 files still present
+  v1Folder : Bool            -- the swamp folder itself still exists
+  hyd      : Option File
+  deriving Repr
+
+section
+variable {α : Type} [DecidableEq α] [Inhabited α]
+
+def dedupe (cfg : MCfg) (segs : List (Seg α)) : List (Entry α) :=
+  segs.foldl (fun es s => if cfg.dedupeLast then insertKV es s.key s.data else insertIfAbsent es s.key s.data) []
+
+/-- the assumption about the V2 codec, for the entries `okE` and names `okN` it is required to carry:
+    with distinct keys a written file loads back to exactly the inserted records, under the written name.
+    (`Hv/Storage/MigrateV2.lean` discharges it for the storage model of C01.) -/
+structure V2.Lawful {File : Type} (v : V2 α File) (okE : Entry α → Prop) (okN : α → Prop) : Prop where
+  load : ∀ nm es, okN nm → (∀ e ∈ es, okE e) → (es.map Prod.fst).Nodup → ∀ k, v.loadMap (v.write nm es) k = lookup es k
+  name : ∀ nm es, okN nm → (∀ e ∈ es, okE e) → v.nameOf (v.write nm es) = nm
+  keys : ∀ nm es k, okN nm → (∀ e ∈ es, okE e) → (es.map Prod.fst).Nodup → v.hasKey (v.write nm es) k = (lookup es k).isSome
+  acc  : ∀ e, okE e → v.accepts e = true
+  accN : ∀ nm, okN nm → v.acceptsName nm = true
+
+/-- the trivial codec used by the driver -/
+def idV2 : V2 α (α × List (Entry α)) where
+  write nm es := (nm, es)
+  append f es := some (f.1, es ++ f.2.filter (fun e => !es.any (fun x => x.1 == e.1)))   -- the appended inserts win
+  accepts _ := true
+  acceptsName _ := true
+  loadMap f k := lookup f.2 k
+  nameOf f := f.1
+  hasKey f k := (lookup f.2 k).isSome
+
 /-- `deleteV1Files`: removes the files in directory order, then the folder; stops at the first failure
     (the caller only logs a warning) -/
-def deleteV1 {File : Type} (ft : Fault) (d : Disk File) : Disk File :=
+def deleteV1 {File : Type} (ft : Fault) (d : Disk α File) : Disk α File :=
   match ft with
   | .unlink n => if n < d.v1.length then { d with v1 := d.v1.drop n } else { d with v1 := [], v1Folder := false }
+  | .rmdir => { d with v1 := [] }
   | _ => { d with v1 := [], v1Folder := false }
 
-def verifyOk {File : Type} (cfg : MCfg) (v : V2 File) (f : File) (es : List Entry) : Bool :=
+def verifyOk {File : Type} (cfg : MCfg) (v : V2 α File) (f : File) (es : List (Entry α)) : Bool :=
   es.all (fun e => v.hasKey f e.1 && (!cfg.verifyValues || v.loadMap f e.1 == some e.2))
 
-/-- `migrateSwamp` for one folder.  `nm` = the swamp name read from the meta file. -/
-def migrate {File : Type} (cfg : MCfg) (v : V2 File) (o : Opts) (ft : Fault) (nm : String) (d : Disk File) :
-    Res × Disk File :=
+/-- `migrateSwamp` for one folder.  `nm0` = the swamp name in the meta file; `d.hyd` = what is at the target path
+    before the run (`none` in a first migration; a file from an earlier run, or planted, otherwise). -/
+def migrate {File : Type} (cfg : MCfg) (v : V2 α File) (o : Opts) (ft : Fault) (nm0 : α) (d : Disk α File) :
+    Res × Disk α File :=
+  -- `loadSwampNameFromMeta` failing is only logged: the migration goes on with an empty name
+  let nm : α := if ft = .metaRead then default else nm0
   let segs := allSegs d.v1
-  if ft = .load || (cfg.emptyKeyIsError && segs.any (fun s => s.key == "")) then (.failed "load", d)
+  if ft = .load || (cfg.metaErrorAborts && ft = .metaRead) || (cfg.emptyKeyIsError && segs.any (fun s => s.key == default)) then (.failed "load", d)
   else
     let es := dedupe cfg segs
     if es.isEmpty then
       (.skippedEmpty, if o.deleteOld && !o.dryRun then deleteV1 ft d else d)
     else if o.dryRun then (.success, d)
+    else if cfg.refusesExisting && d.hyd.isSome then (.failed "write", d)
     else
-      let del (x : Disk File) : Disk File := if o.deleteOld then deleteV1 ft x else x
-      let written (x : Disk File) : Disk File := { x with hyd := some (v.write nm es) }
+      -- what a complete write puts at the target path (`none`: the writer cannot even be created; nothing is touched)
+      let target : Option File := match d.hyd with
+        | none => if v.acceptsName nm then some (v.write nm es) else none
+        | some f => v.append f es
+      let del (x : Disk α File) : Disk α File := if o.deleteOld then deleteV1 ft x else x
+      let written (x : Disk α File) : Disk α File := { x with hyd := target }
+      -- `WriteEntry` refuses a record: same branch as a failing write of a block
+      let wfails : Bool := ft.isWrite || target.isNone || es.any (fun e => !v.accepts e)
       -- a failed write leaves nothing (`os.Remove`) or a partial file
-      let wfail (x : Disk File) : Disk File :=
-        let removes := match ft with
-          | .write 0 => cfg.removeOnOpenFail
-          | _ => cfg.removeOnWriteFail
-        if removes then { x with hyd := none } else { x with hyd := some (v.write nm []) }
-      let vfails (x : Disk File) : Bool :=
+      let wfail (x : Disk α File) : Disk α File :=
+        if target.isNone then x
+        else match d.hyd with
+          | none =>
+            let removes := match ft with
+              | .write 0 => cfg.removeOnOpenFail
+              | _ => cfg.removeOnWriteFail
+            if removes then { x with hyd := none } else { x with hyd := some (v.write nm []) }
+          | some f =>
+            -- opening an existing file writes nothing; a failure later removes the file — the one that was there
+            if ft = .write 0 then x
+            else if cfg.removeOnWriteFail then { x with hyd := none } else { x with hyd := (v.append f []).getD f }
+      let vfails (x : Disk α File) : Bool :=
         o.verify && (ft = .verify || match x.hyd with
                                      | some f => !verifyOk cfg v f es
                                      | none => true)
-      let unwrite (x : Disk File) : Disk File := if cfg.removeOnVerifyFail then { x with hyd := none } else x
+      let unwrite (x : Disk α File) : Disk α File := if cfg.removeOnVerifyFail then { x with hyd := none } else x
       -- the three effects in the order the code performs them
       match cfg.writeBeforeDelete, cfg.verifyBeforeDelete with
       | true, true =>
-        if ft.isWrite then (.failed "write", wfail d)
+        if wfails then (.failed "write", wfail d)
         else if vfails (written d) then (.failed "verify", unwrite (written d))
         else (.success, del (written d))
       | true, false =>
-        if ft.isWrite then (.failed "write", wfail d)
+        if wfails then (.failed "write", wfail d)
         else if vfails (del (written d)) then (.failed "verify", unwrite (del (written d)))
         else (.success, del (written d))
       | false, _ =>
-        if ft.isWrite then (.failed "write", wfail (del d))
+        if wfails then (.failed "write", wfail (del d))
         else if vfails (written (del d)) then (.failed "verify", unwrite (written (del d)))
         else (.success, written (del d))
 
 /-- the migrator with the facts as extracted today, spelled out -/
-def migrateGood {File : Type} (v : V2 File) (o : Opts) (ft : Fault) (nm : String) (d : Disk File) : Res × Disk File :=
+def migrateGood {File : Type} (v : V2 α File) (o : Opts) (ft : Fault) (nm0 : α) (d : Disk α File) : Res × Disk α File :=
+  let nm : α := if ft = .metaRead then default else nm0
   let segs := allSegs d.v1
   let es := dedupe good segs
-  if ft = .load || segs.any (fun s => s.key == "") then (.failed "load", d)
+  if ft = .load || ft = .metaRead || segs.any (fun s => s.key == default) then (.failed "load", d)
   else if es.isEmpty then (.skippedEmpty, if o.deleteOld && !o.dryRun then deleteV1 ft d else d)
   else if o.dryRun then (.success, d)
-  else if ft.isWrite then (.failed "write", { d with hyd := none })
-  else if o.verify && (ft = .verify || !verifyOk good v (v.write nm es) es) then (.failed "verify", { d with hyd := none })
+  else if d.hyd.isSome then (.failed "write", d)
+  else if ft.isWrite || !v.acceptsName nm || es.any (fun e => !v.accepts e) then (.failed "write", d)
+  else if o.verify && (ft = .verify || !verifyOk good v (v.write nm es) es) then (.failed "verify", d)
   else (.success, if o.deleteOld then deleteV1 ft { d with hyd := some (v.write nm es) } else { d with hyd := some (v.write nm es) })
+
+end
 
 end Hv.Migrate
